@@ -85,11 +85,15 @@ def alphabet(world):
             if t in m._supplies:
                 out.append(Op(f"withdraw[{t.name},part]", lambda c, t=t, a=a: do("withdraw", t, a / 3, lambda: m.withdraw(t, a / 3)), False, "withdraw"))
                 out.append(Op(f"withdraw[{t.name},None]", lambda c, t=t: do("withdraw", t, None, lambda: m.withdraw(t)), True, "withdraw"))
+                # a stated amount of 0 (a strategy sizing its order from a balance that happens to be 0) is 0, not "everything": refused or accepted, nothing moves
+                out.append(Op(f"withdraw[{t.name},0]", lambda c, t=t: do("withdraw", t, Decimal(0), lambda: m.withdraw(t, Decimal(0))), True, "withdraw"))
                 out.append(Op(f"withdraw[{t.name},all]",
                               lambda c, t=t: do("withdraw", t, "all", lambda: m.withdraw(t, m.get_supply(t).amount)), True, "withdraw"))
             if t != aave.WETH:
                 b = STATED[t.name] / 5
                 out.append(Op(f"borrow[{t.name}]", lambda c, t=t, b=b: do("borrow", t, b, lambda: m.borrow(t, b)), False, "borrow"))
+            if t == aave.DAI and m._supplies:
+                out.append(Op(f"borrow[{t.name},0]", lambda c, t=t: do("borrow", t, Decimal(0), lambda: m.borrow(t, Decimal(0))), True, "borrow"))
             if t == aave.USDC:
                 big = STATED[t.name] * Decimal("0.45")  # more than the DAI supply is worth: repaying it with DAI collateral hits the cap
                 out.append(Op(f"borrow[{t.name},big]", lambda c, t=t, big=big: do("borrow", t, big, lambda: m.borrow(t, big)), False, "borrow"))
@@ -103,6 +107,8 @@ def alphabet(world):
                 b = STATED[t.name] / 11
                 out.append(Op(f"repay[{t.name},part]", lambda c, t=t, b=b: do("repay", t, b, lambda: m.repay(t, b), "cash"), False, "repay"))
                 out.append(Op(f"repay[{t.name},None]", lambda c, t=t: do("repay", t, None, lambda: m.repay(t), "cash"), True, "repay"))
+                out.append(Op(f"repay[{t.name},0]", lambda c, t=t: do("repay", t, Decimal(0), lambda: m.repay(t, Decimal(0)), "cash"), True, "repay"))
+                out.append(Op(f"repay[{t.name},0.0]", lambda c, t=t: do("repay", t, Decimal(0), lambda: m.repay(t, 0.0), "cash"), True, "repay"))
                 # a cash repayment that also names a collateral token (ignored in cash mode, as documented): still paid from the wallet
                 out.append(Op(f"repay[{t.name},part,cash+token-named]",
                               lambda c, t=t, b=b: do("repay", t, b, lambda: m.repay(t, b, False, aave.WETH), "cash"), True, "repay"))
@@ -239,7 +245,13 @@ class Oracle:
             return
         info = ctx.last
         n_before = snap["n_actions"]
-        self.step_model(ctx, info, None)
+        try:
+            self.step_model(ctx, info, None)
+        except KeyError as e:
+            # the market accepted an operation on a position the ledger does not have (after an earlier discrepancy): report it, the ledger can not follow
+            part.violation(f"C10|{op.kind}|accepted-on-missing-position", "an operation on a supply / debt that does not exist by the ledger was accepted", {"history": list(hist)},
+                           {"label": op.label, "missing": str(e)})
+            return
         good = self.compare(ctx, hist, op.kind)
         # the action record must state the same amounts
         acts = ctx.actions[n_before:]
@@ -321,7 +333,7 @@ class Oracle:
                         part.violation("C10|split|withdraw", "withdraw(x) differs from withdraw(x/2) twice by more than 1e-18", dict(case, token=t.name))
                 except AssertionError:
                     part.count("differential_rejected")
-            if t in m._borrows:
+            if t in m._borrows and m.get_borrow(t).amount > 0:  # (an entry of exactly 0, left by a borrow of 0, is no debt to repay)
                 d = m.get_borrow(t).amount
                 part.count("differentials")
                 if ctx.wallet().get(t.name, 0) > d * 2:
